@@ -378,6 +378,7 @@ def run(ctx):
     probe_mle_init_singular(ctx, cf)
     n = ctx.n(14, 240)
     for it in range(n):
+        core.release_jax(8)
         cfg, d, order = random_config(ctx, "filter", it)
         field, u0s, t0 = make_problem(ctx, cfg, d, order)
         nst = int(ctx.rng.integers(2, 4))
